@@ -64,6 +64,8 @@ def run(tier):
     if runs:
         rep.sample({"fn": runs[0]["fn"], "consumed_bytes": runs[0]["input"], "base": runs[0]["base"]["res"], "with_suffix": runs[0]["ext"][1]["res"]})
     rep.assumptions.append("Slice provenance of defragmented results (record vs internal buffer) is checked by C07 on every transition (src field)")
+    # the multi-record entry points: stray bytes after the last whole record leave the records unchanged and are the remainder
+    common.mc_replay(rep, binary, PROP, "MC_C06_Many", keyf=lambda c: "manylocal:%s:%s" % (c["fn"], c["id"]), run="many", nchunks=2)
     # (growth) locality at real buffer sizes: the structure followed by 10 MiB - 1 .. 2^24 + 1 bytes
     common.huge_buffers(rep, binary, PROP)
     return rep.finish("model_checking",
